@@ -24,6 +24,9 @@ mod s3_trait;
 mod sig_v2;
 mod sig_v4;
 
+#[cfg(feature = "verif-hooks")]
+pub mod verif_hooks;
+
 pub mod access;
 pub mod auth;
 pub mod checksum;
